@@ -261,6 +261,58 @@ USER_FEA = [
 ]
 
 
+def handwritten_features_section(ctx):
+    """for EVERY feature the default writers can generate (kern, mark, mkmk, curs) on a font that gives each of them work: a
+    hand-written block of that feature without the marker (or with a mis-cased one) stays the only block of that feature and
+    keeps exactly its statements; with the marker the generated rules are added; the other features are generated as usual"""
+    import ufo2ft
+    from fontTools.feaLib.parser import Parser
+    from fontTools.feaLib import ast
+    glyphs = [{"name": n, "unicodes": [u], "width": 500, "contours": [],
+               "anchors": [("top", Fr(250), Fr(600)), ("entry", Fr(0), Fr(0)), ("exit", Fr(500), Fr(0))]}
+              for n, u in (("a", 0x61), ("o", 0x6F), ("A", 0x41), ("V", 0x56))]
+    glyphs += [{"name": "acutecomb", "unicodes": [0x301], "width": 0, "contours": [], "anchors": [("_top", Fr(0), Fr(500)), ("top", Fr(0), Fr(700))]},
+               {"name": "gravecomb", "unicodes": [0x300], "width": 0, "contours": [], "anchors": [("_top", Fr(0), Fr(500)), ("top", Fr(0), Fr(700))]}]
+    gn = [g["name"] for g in glyphs]
+    TAGS = ["kern", "mark", "mkmk", "curs"]
+    MARKERS = [("none", ""), ("marker", "    # Automatic Code\n"), ("mis-cased", "    # automatic code\n"), ("marker-after", None)]
+    for i in range(ctx.budget(len(TAGS) * len(MARKERS), 2 * len(TAGS) * len(MARKERS))):
+        tag = TAGS[i % len(TAGS)]
+        mk, mtxt = MARKERS[(i // len(TAGS)) % len(MARKERS)]
+        lib = ["ufoLib2", "defcon"][(i // (len(TAGS) * len(MARKERS))) % 2]
+        body = "    pos a o -7;\n"
+        block = "feature %s {\n%s} %s;\n" % (tag, (body + "    # Automatic Code\n") if mtxt is None else (mtxt + body), tag)
+        fea = "languagesystem DFLT dflt;\nlanguagesystem latn dflt;\n" + block
+        desc = {"glyphs": glyphs, "features": fea, "kerning": {("A", "V"): Fr(-50)},
+                "lib": {"public.openTypeCategories": {"acutecomb": "mark", "gravecomb": "mark", "a": "base", "o": "base", "A": "base", "V": "base"}}}
+        case = {"features": fea, "hand_written_feature": tag, "marker": mk, "lib": lib}
+        ctx.count(); ctx.klass("hand-written %s / %s" % (tag, mk)); ctx.nontriv(("hw", i, ctx.scale))
+        try:
+            dbg = io.StringIO()
+            ufo2ft.compileTTF(build_font(desc, lib), useProductionNames=False, debugFeatureFile=dbg)
+            final = Parser(io.StringIO(dbg.getvalue()), glyphNames=gn).parse()
+        except Exception as e:
+            ctx.spec_failure(case, "compile raised %s: %s\n%s" % (type(e).__name__, e, traceback.format_exc()[-800:]))
+            continue
+        blocks = {}
+        for st in final.statements:
+            if isinstance(st, ast.FeatureBlock):
+                blocks.setdefault(st.name, []).append([x.asFea() for x in st.statements if not isinstance(x, ast.Comment)])
+        mine = blocks.get(tag, [])
+        has_marker = mk in ("marker", "marker-after")
+        if not has_marker:
+            if len(mine) != 1 or mine[0] != ["pos a o -7;"]:
+                ctx.spec_failure(dict(case, blocks=mine), "the hand-written %s feature (no marker) was duplicated or added to: %r" % (tag, mine))
+        else:
+            if not any("lookup " in x for b in mine for x in b):
+                ctx.spec_failure(dict(case, blocks=mine), "the %s feature carries the marker but nothing was generated for it: %r" % (tag, mine))
+            if not any(b == ["pos a o -7;"] or "pos a o -7;" in b for b in mine):
+                ctx.spec_failure(dict(case, blocks=mine), "the hand-written %s rule is gone: %r" % (tag, mine))
+        for other in TAGS:
+            if other != tag and not any("lookup " in x for b in blocks.get(other, []) for x in b):
+                ctx.spec_failure(dict(case, blocks=blocks.get(other)), "feature %s was not generated although the user wrote only %s" % (other, tag))
+
+
 def gdef_todo_level(ctx):
     """GdefFeatureWriter.setContext: what is left to generate given the user's GDEF table, against Fea/GdefTodo.v"""
     import itertools
@@ -472,6 +524,7 @@ def compile_level(ctx):
                     ctx.spec_failure(case, "marker in the middle but the rules after it precede the generated kern")
     indic_level(ctx)
     gdef_todo_level(ctx)
+    handwritten_features_section(ctx)
     # GSUB writers run first
     from ufo2ft.featureCompiler import FeatureCompiler
     from ufo2ft.featureWriters import KernFeatureWriter, MarkFeatureWriter, BaseFeatureWriter
